@@ -2,14 +2,10 @@ from enum import Flag, auto
 from typing import Optional, TextIO, Tuple, Type
 
 from pyp0f.database.labels import DatabaseLabel, Label
-from pyp0f.database.parse.utils import (
-    fixed_options_parser,
-    parsing_error_wrapper,
-    split_parts,
-)
+from pyp0f.database.parse.utils import fixed_options_parser, parsing_error_wrapper
 from pyp0f.database.records import HTTPRecord, MTURecord, Record, TCPRecord
 from pyp0f.database.records_database import RecordsDatabase
-from pyp0f.exceptions import DatabaseError, ParsingError
+from pyp0f.exceptions import DatabaseError, FieldError, ParsingError
 from pyp0f.net.packet import Direction
 from pyp0f.utils.path import PathLike
 
@@ -124,9 +120,16 @@ def _parse_section(line: str) -> Tuple[Type[Record], Optional[Direction]]:
     """
     Parse section entry. Returns the section record type and direction to use.
     """
-    section_type, direction = split_parts(line[1:-1], parts=2)
+    if not line.endswith("]"):
+        raise FieldError(f"Malformed section header: {line!r}")
 
-    return (
-        _parse_section_type(section_type),
-        _parse_direction(direction) if direction else None,
-    )
+    section_type, _, direction = line[1:-1].partition(":")
+    record_cls = _parse_section_type(section_type)
+
+    # [mtu] takes no direction, [tcp:...] and [http:...] require one
+    if record_cls is MTURecord:
+        if direction:
+            raise FieldError(f"Section {section_type!r} takes no direction")
+        return record_cls, None
+
+    return record_cls, _parse_direction(direction)
